@@ -25,6 +25,7 @@ def init_priority_scheduler(s):
     }
 
     s.suspending: Dict[uuid.UUID, WaitingQueueJob] = {}
+    s.requeued_suspended = set()  # container_ids of suspended containers already re-queued
     s.oom_failed_to_run = 0
 
 def get_pool_with_max_avail_ram(s, pool_stats):
@@ -127,9 +128,23 @@ def priority_scheduler(s, results: List[ExecutionResult],
             s.suspending[c.container_id] = job
     for pool_id in range(s.executor.num_pools):
         for container in s.executor.pools[pool_id].suspended_containers:
-            if container.container_id in s.suspending:
-                job = s.suspending.pop(container.container_id)
-                s.queues_by_prio[job.priority].append(job)
+            if container.container_id in s.requeued_suspended:
+                continue
+            s.requeued_suspended.add(container.container_id)
+            job = s.suspending.pop(container.container_id, None)
+            if job is None:
+                # suspension finished within a single tick, so we never
+                # saw this container in the suspending list
+                ops = [op for op in container.operators if op.state() != OperatorState.COMPLETED]
+                retry_stats = RetryStats(
+                    old_ram=container.assignment.ram,
+                    old_cpu=container.assignment.cpu,
+                    error=container.error,
+                    container_id=container.container_id,
+                    pool_id=pool_id,
+                )
+                job = WaitingQueueJob(priority=container.priority, p=ops[0].pipeline, ops=ops, retry_stats=retry_stats)
+            s.queues_by_prio[job.priority].append(job)
 
     # resource stats per pool/machine
     pool_stats = {}
